@@ -18,6 +18,11 @@ class C12(ValsetBase):
     gens = [Gen("ValsetGen", "ValsetGen_alive_cover", "bfs", tiers=("quick",), timeout=600, cap=200),
             Gen("ValsetGen", "ValsetGen_alive_sim", "simulate", num=40, depth=14, tiers=("quick",), cap=170),
             Gen("ValsetGen", "ValsetGen_ladder_sim", "simulate", num=20, depth=18, tiers=("quick",), cap=40),
+            # one validator jailed (check or message) and ANOTHER one unjailing in the same / the next block, then silence
+            Gen("ValsetGen", "ValsetGen_swap_cover", "bfs", tiers=("quick", "thorough"), timeout=600),
+            # stake vectors with the silent validator at 24.5%, exactly 25%, 25.49% and 26.47% of bonded power
+            Gen("ValsetGen", "ValsetGen_share_cover", "bfs", tiers=("quick",), timeout=600, cap=160),
+            Gen("ValsetGen", "ValsetGen_share_cover", "bfs", tiers=("thorough",), timeout=600),
             Gen("ValsetGen", "ValsetGen_alive_cover", "bfs", tiers=("thorough",), timeout=900),
             Gen("ValsetGen", "ValsetGen_alive_sim", "simulate", num=500, depth=14, tiers=("thorough",), cap=2600),
             Gen("ValsetGen", "ValsetGen_ladder_sim", "simulate", num=100, depth=18, tiers=("thorough",), cap=400)]
@@ -49,8 +54,24 @@ class C12(ValsetBase):
         ttl_at = [st("InitK", stakes=dom), st("Blocks", n=9, dt=2), st("KeepAlive", v=2, ver=2), st("Blocks", n=2000, dt=2), st("Blocks", n=1, dt=2), st("Blocks", n=9, dt=2)]
         ttl_before = [st("InitK", stakes=dom), st("Blocks", n=10, dt=2), st("KeepAlive", v=2, ver=2), st("Blocks", n=1999, dt=2), st("Blocks", n=1, dt=2), st("Blocks", n=10, dt=2)]
         grace = [st("InitK", stakes=dom), st("Blocks", n=99, dt=2), st("Unjail", v=2), st("Blocks", n=30, dt=2), st("Blocks", n=1, dt=2), st("Blocks", n=10, dt=2)]
+        # regression shapes: network-share protection boundary; validator 1 silent with 24.5%, 25%, 25.49% (26 of 102), 26.47% of bonded power
+        shares = []
+        for vec in ([25, 25, 25, 25, 1], [25, 26, 25, 26, 1], [26, 25, 25, 26, 1], [27, 25, 25, 25, 1]):
+            shares.append([st("InitK", stakes=vec), st("Blocks", n=60, dt=2), st("Blocks", n=10, dt=2)])
+            shares.append([st("InitK", stakes=vec), st("Jail", v=1), st("Blocks", n=60, dt=2), st("Jail", v=4), st("Blocks", n=10, dt=2)])
+        # regression shapes: jailing of X and unjailing of Y in one block window (the unjailed set keeps its size), then Y silent
+        # beyond the grace period plus one check period: Y must be jailed
+        swap_sweep = [st("InitK", stakes=dom), st("Blocks", n=99, dt=2), st("Unjail", v=3), st("Blocks", n=41, dt=2), st("Unjail", v=2), st("Blocks", n=45, dt=2)]
+        swap_same = [st("InitK", stakes=dom), st("Blocks", n=99, dt=2), st("Unjail", v=3), st("Blocks", n=1, dt=2), st("Jail", v=3), st("Unjail", v=2), st("Blocks", n=50, dt=2)]
+        swap_same2 = [st("InitK", stakes=dom), st("Blocks", n=99, dt=2), st("Unjail", v=3), st("Blocks", n=1, dt=2), st("Unjail", v=2), st("Jail", v=3), st("Blocks", n=50, dt=2)]
+        swap_next = [st("InitK", stakes=dom), st("Blocks", n=99, dt=2), st("Unjail", v=3), st("Blocks", n=1, dt=2), st("Jail", v=3), st("Blocks", n=1, dt=2), st("Unjail", v=2), st("Blocks", n=50, dt=2)]
         # the boundary shapes run on address sets without 0x2c (plain; 0x00/0xff; 32-byte and prefix/suffix addresses)
         out = [frag]
+        for aset in range(NUM_ADDR_SETS):
+            for shape in [swap_sweep, swap_same, swap_same2, swap_next] + (shares if aset in (0, 3, 5) else []):
+                h = copy.deepcopy(shape)
+                h[0]["args"]["aset"] = aset
+                out.append(h)
         for aset in (0, 2, 3):
             for shape in (lad, ttl_at, ttl_before, grace):
                 h = copy.deepcopy(shape)
